@@ -619,7 +619,6 @@ Lemma annotate_core ua rank e e1 rk : annotate ua rank e = Ok (e1, rk) -> core e
 Proof.
   unfold annotate, the_dict, with_dict. intros H.
   destruct (if rank =? -1 then e_pid e else Some rank); [|discriminate].
-  destruct (if ua then e_attr e else e_args e); [|discriminate].
   injection H as <- <-. destruct ua, (0 <=? z); reflexivity.
 Qed.
 
@@ -657,18 +656,31 @@ Proof.
     (split; [reflexivity|]); (split; [reflexivity|]); intros; try reflexivity; try lia.
 Qed.
 
-Lemma updated_meta job rank m p d :
-  e_ph m = Some "M"%string -> e_pid m = Some p -> e_args m = Some d ->
+Lemma updated_meta job rank m ph p :
+  e_ph m = Some ph -> In ph ["M"; "i"; "b"; "e"]%string -> e_pid m = Some p ->
   exists x1, updated job rank m = Ok (x1, latch rank p) /\ core x1 = core m /\ ann_ok (latch rank p) x1.
 Proof.
-  intros Hph Hp Hg. unfold updated, annotate, the_dict, with_dict, latch, ann_ok, ann_rank, ann_dict, ph_of.
-  rewrite Hph. cbn -[Z.eqb Z.leb]. rewrite Hp, Hg. destruct d as [d1 d2].
-  destruct (rank =? -1);
+  intros Hph Hin Hp. unfold updated, annotate, the_dict, with_dict, latch, ann_ok, ann_rank, ann_dict, ph_of.
+  rewrite Hph.
+  destruct Hin as [<-|[<-|[<-|[<-|[]]]]]; cbn -[Z.eqb Z.leb]; rewrite Hp;
+    destruct (e_args m) as [[d1 d2]|];
+    destruct (rank =? -1);
     match goal with |- context [0 <=? ?r] => destruct (0 <=? r) eqn:El end;
     eexists; (split; [reflexivity|]);
     cbn [e_ph e_attr e_args e_pid with_pid with_attr with_args e_uid e_name e_ts e_dur core fst snd];
     rewrite ?Hph; cbn;
     (split; [reflexivity|]); (split; [reflexivity|]); intros; try reflexivity; try lia.
+Qed.
+
+(* an annotated pass-through event is emitted as it is: M without looking at dur, i/b/e when it has none *)
+Lemma meta_keep ph x1 :
+  In ph ["M"; "i"; "b"; "e"]%string -> (ph = "M"%string \/ e_dur x1 = None) ->
+  negb (substr ph "BE") = true /\
+  ((ph =? "M")%string = true \/ ((ph =? "M")%string = false /\ sane x1 = Keep)).
+Proof.
+  intros Hin Hd. destruct Hin as [<-|[<-|[<-|[<-|[]]]]]; (split; [reflexivity|]);
+    try (left; reflexivity);
+    (destruct Hd as [Hd|Hd]; [discriminate|]); right; (split; [reflexivity|]); unfold sane; now rewrite Hd.
 Qed.
 
 Lemma updated_other job rank o : e_ph o = Some "C"%string -> updated job rank o = Ok (o, rank).
@@ -681,6 +693,18 @@ Lemma ph_is_true e p : ph_is e p = true -> e_ph e = Some p.
 Proof. unfold ph_is. destruct (e_ph e); [|discriminate]. intros H. apply String.eqb_eq in H. now subst. Qed.
 Lemma is_some_true {A} (o : option A) : is_some o = true -> exists v, o = Some v.
 Proof. destruct o; [eauto|discriminate]. Qed.
+
+Lemma wf_meta m :
+  (ph_is m "M" || (ph_is m "i" || ph_is m "b" || ph_is m "e") && negb (is_some (e_dur m))) = true ->
+  exists ph, e_ph m = Some ph /\ In ph ["M"; "i"; "b"; "e"]%string /\ (ph = "M"%string \/ e_dur m = None).
+Proof.
+  intros H. apply orb_prop in H. destruct H as [H|H].
+  - apply ph_is_true in H. exists "M"%string. cbn. auto.
+  - apply andb_prop in H. destruct H as [H Hd].
+    assert (Hn : e_dur m = None) by (destruct (e_dur m); [discriminate|reflexivity]).
+    apply orb_prop in H. destruct H as [H|H]; [apply orb_prop in H; destruct H as [H|H]|];
+      apply ph_is_true in H; eexists; (split; [exact H|]); cbn; auto 6.
+Qed.
 
 Lemma core_ph a b : core a = core b -> e_ph a = e_ph b /\ e_dur a = e_dur b /\ e_ts a = e_ts b /\ e_name a = e_name b.
 Proof. unfold core. intros H. injection H. auto. Qed.
@@ -796,20 +820,23 @@ Proof.
       * destruct (IH zero (neg + 1) W) as (I1 & I2 & I3 & I4 & I5).
         rewrite I1, I2, I3, I4. repeat split; try lia.
         intros Hn. rewrite (Hfix Hn) in I5 |- *. rewrite (first_rank_fixed _ toks Hn) in I5. now apply I5.
-    + (* metadata *)
-      apply andb_prop in Wt. destruct Wt as [Wt Wg]. apply andb_prop in Wt. destruct Wt as [Wph Wp].
-      apply ph_is_true in Wph. apply is_some_true in Wp. destruct Wp as [p Hp].
-      apply is_some_true in Wg. destruct Wg as [d Hg].
-      destruct (updated_meta job rank m p d Wph Hp Hg) as (x1 & Hu & Hc & Ha).
+    + (* metadata / instant / async event, with or without args *)
+      apply andb_prop in Wt. destruct Wt as [Wk Wp].
+      apply is_some_true in Wp. destruct Wp as [p Hp].
+      destruct (wf_meta m Wk) as (ph & Wph & Hin & Hd).
+      destruct (updated_meta job rank m ph p Wph Hin Hp) as (x1 & Hu & Hc & Ha).
       destruct (core_ph _ _ Hc) as (Cph & Cd & Cts & Cn).
-      cbn [fstream_o]. rewrite Hu. unfold ph_of. rewrite Cph, Wph. rewrite cM1, cM2.
+      assert (Hd1 : ph = "M"%string \/ e_dur x1 = None) by (rewrite Cd; exact Hd).
+      destruct (meta_keep ph x1 Hin Hd1) as (K1 & K2).
+      cbn [fstream_o]. rewrite Hu. unfold ph_of. rewrite Cph, Wph. rewrite K1.
       assert (Hr : first_rank rank (TM m :: toks) = latch rank p) by (cbn [first_rank]; unfold pid_or; now rewrite Hp).
       rewrite Hr. unfold expected. cbn [filter]. rewrite !count_cons.
       change (is_keep (TM m)) with true. change (is_zero (TM m)) with false. change (is_neg (TM m)) with false.
       destruct (IH job (latch rank p) zero neg W) as (I1 & I2 & I3 & I4 & I5).
       destruct (consE_parts x1 (fstream_o job (latch rank p) zero neg None (flatten toks))) as (E1 & E2 & E3).
-      rewrite E1, E2, E3. cbn [map tok_out]. rewrite Hc, I1, I2, I3, I4. repeat split; try lia.
-      intros Hne. constructor; [intros _; exact Ha|]. rewrite (first_rank_fixed _ toks Hne) in I5. now apply I5.
+      destruct K2 as [K2|[K2 K3]]; rewrite K2; [|rewrite K3];
+        (rewrite E1, E2, E3; cbn [map tok_out]; rewrite Hc, I1, I2, I3, I4; repeat split; try lia;
+         intros Hne; constructor; [intros _; exact Ha|]; rewrite (first_rank_fixed _ toks Hne) in I5; now apply I5).
     + (* other (counter) event: untouched *)
       apply andb_prop in Wt. destruct Wt as [Wph Wd]. apply ph_is_true in Wph.
       assert (Hd : e_dur o = None) by (destruct (e_dur o); [discriminate|reflexivity]).
